@@ -1083,3 +1083,17 @@ V('c02-twin-count-bound-strict', 'C02', 'C02.FAITHFUL', INCF, _HDR_OLD, _HDR_NEW
 SVC = '_services/__init__.py'
 V('c04-signal-fire-live-list', 'C04', 'C04.FLUSH', SVC, "        for h in self._handlers[:]:", "        for h in self._handlers:", names=['Signal.fire'])
 V('c04-twin-signal-fire-list-copy', 'C04', 'C04.FLUSH', SVC, "        for h in self._handlers[:]:", "        for h in list(self._handlers):", expect='silent')
+
+# ---------------------------------------------------------------- round 10: remaining TTL / refresh
+V('c13-remaining-ttl-rounded-up', 'C13', 'C13.KNOWN', DNS,
+  "        remain = (self.created + (_EXPIRE_FULL_TIME_MS * self.ttl) - now) / 1000.0\n        return 0 if remain < 0 else remain",
+  "        remain = self.created + (_EXPIRE_FULL_TIME_MS * self.ttl) - now\n        if remain <= 0:\n            return 0\n        return int(-(-remain // _EXPIRE_FULL_TIME_MS))", names=['get_remaining_ttl'])
+V('c13-twin-remaining-ttl-two-returns', 'C13', 'C13.KNOWN', DNS,
+  "        remain = (self.created + (_EXPIRE_FULL_TIME_MS * self.ttl) - now) / 1000.0\n        return 0 if remain < 0 else remain",
+  "        remain = (self.created + (_EXPIRE_FULL_TIME_MS * self.ttl) - now) / 1000.0\n        if remain < 0:\n            return 0\n        return remain", expect='silent')
+V('c05-refresh-never-shortens', 'C05', 'C05.OWN', DNS,
+  "        self.set_created_ttl(other.created, other.ttl)",
+  "        if other.get_expiration_time(100) >= self.get_expiration_time(100):\n            self.set_created_ttl(other.created, other.ttl)", names=['reset_ttl'])
+V('c10-refresh-never-shortens', 'C10', 'C10.CONST', DNS,
+  "        self.set_created_ttl(other.created, other.ttl)",
+  "        if other.get_expiration_time(100) >= self.get_expiration_time(100):\n            self.set_created_ttl(other.created, other.ttl)", names=['reset_ttl'])
